@@ -647,6 +647,9 @@ def write_evidence(tier, seed, batch, wall, workers, n_viol, klines, det_info, s
         "forks_taken_with_memo_present": s["fork_with_memo"],
         "write_error_before_any_byte": sum(v for k, v in s.items() if k.startswith("wfail:before")),
         "write_error_after_prefix_stored": sum(v for k, v in s.items() if k.startswith("wfail:after")),
+        "write_silently_lost": sum(v for k, v in s.items() if k.startswith("wfail:lost")),
+        "write_silently_short": sum(v for k, v in s.items() if k.startswith("wfail:short")),
+        "read_error_on_load": sum(v for k, v in s.items() if k.startswith("wfail:read")),
         "write_error_not_reached": s["wfail:not_reached"],
         "injected_failure_inside_query_fired": s["inject:fired"],
         "injected_failure_not_reached": s["inject:not_reached"],
